@@ -93,6 +93,23 @@ Definition C11_body (sq : F -> F) (n : nat) (f : vec -> F) (g : vec -> vec) (gam
     (h fuel : nat) (x y : vec) (errs : list F) : option C11_iter_out :=
   C11_body_ray sq n gamma eps mode h fuel (C11_phi f x y) (f x) (C11_slope n g x y) x y errs.
 
+(* ---- before the loop: start point and the step parameter mu ---- *)
+Fixpoint C11_nat_F (k : nat) : F := match k with O => 0 | S j => C11_nat_F j + 1 end.      (* integer literal as a field element *)
+(* x_prev = var_start if given, else the variable of the origin object *)
+Definition C11_start {V : Type} (origin : V) (var_start : option V) : V := match var_start with Some v => v | None => origin end.
+(* mu = option.mu if it is given and non-zero (Python truthiness), else 3 / (2 sqrt(n)) with n = len(var_start) if a start point is given,
+   else n = qt.num_variables if a tomography is attached, else ValueError (None);  [sqrtn] = np.sqrt on integers (oracle) *)
+Definition C11_mu_formula (sqrtn : nat -> F) (n : nat) : F := (1 + 1 + 1) / ((1 + 1) * sqrtn n).
+Definition C11_default_mu (sqrtn : nat -> F) (mu_opt : option F) (start_len qt_nvars : option nat) : option F :=
+  let fallback := match start_len with
+                  | Some n => Some (C11_mu_formula sqrtn n)
+                  | None => option_map (C11_mu_formula sqrtn) qt_nvars
+                  end in
+  match mu_opt with
+  | Some m => if keqb F m 0 then fallback else Some m
+  | None => fallback
+  end.
+
 (* ---- the whole loop ---- *)
 Inductive C11_result :=
 | C11_Done (xs : list vec) (errs : list F) (k : nat) (warn : bool)   (* xs, errs newest first; xs includes the start *)
